@@ -261,6 +261,11 @@ func c11Gen(idx int) c11Case {
 		c.Prefill = uint64(rng.Range(3000, 3400))
 	}
 	lo := uint64(1)
+	if c.Backend == "memdb" && c.Prefill+12 > uint64(c.MemCap) && c.Prefill <= uint64(c.MemCap) {
+		// the ring fills up DURING the case (<= 9 appends, two writers at most): round 1 may be gone by the time a
+		// stream asks for it
+		lo = c.Prefill + 12 - uint64(c.MemCap) + 10
+	}
 	if c.Backend == "memdb" && c.Prefill > uint64(c.MemCap) {
 		// the ring forgets its oldest rounds as the case appends (<= 9 rounds, two writers at most):
 		// a stream can only be owed rounds that are still held when it starts
